@@ -19,6 +19,9 @@ inductive WfMove (A : Status → Bool) : Status → Status → Prop
       wfOnTaskEvent s ev rem act oc = .ok s' → s' ≠ s → wfUnreachCheck s' = true → WfMove A s .failed
   | wfEvent {s s'} (req : Status) (a st p : Bool) :
       A req = true → wfOnWorkflowEvent s req a st p = .ok s' → WfMove A s s'
+  | wfEventUnreach {s s'} (req : Status) (a st p : Bool) :
+      A req = true → wfOnWorkflowEvent s req a st p = .ok s' → s' ≠ s → wfReqUnreachCheck s' = true →
+      WfMove A s .failed
 
 inductive WfTrace (A : Status → Bool) : Status → Status → Prop
   | refl (s) : WfTrace A s s
@@ -44,6 +47,7 @@ theorem WfMove.mono {A B : Status → Bool} (hAB : ∀ s, A s = true → B s = t
   | taskEvent ev rem act oc h => exact .taskEvent ev rem act oc h
   | taskEventUnreach ev rem act oc h h1 h2 => exact .taskEventUnreach ev rem act oc h h1 h2
   | wfEvent req a st p hA h => exact .wfEvent req a st p (hAB _ hA) h
+  | wfEventUnreach req a st p hA h h1 h2 => exact .wfEventUnreach req a st p (hAB _ hA) h h1 h2
 
 theorem WfTrace.mono {A B : Status → Bool} (hAB : ∀ s, A s = true → B s = true) {a b}
     (h : WfTrace A a b) : WfTrace B a b := by
@@ -134,9 +138,27 @@ theorem wfProcessWorkflowEvent_status (req : Status) (hA : A req = true) :
   intro c
   show WfTrace A _ _
   unfold wfProcessWorkflowEvent
+  dsimp only
   split
   · exact .refl _
-  · next s' h => exact WfTrace.single (.wfEvent req _ _ _ hA h)
+  · next s' h =>
+    split
+    · next hc =>
+      split
+      · exact WfTrace.single (.wfEvent req _ _ _ hA h)
+      · have hk : ∀ xs : List Staged, Rel keepPre (M.forEach xs
+            fun x => logError "UnreachableJoinError" (some x.id) (some x.route)) :=
+          fun xs => Rel.forEach _ (fun x => logEntry_keep _)
+        rw [(hk _).run _]
+        simp only [Bool.and_eq_true] at hc
+        have hne : s' ≠ c.st.status := by
+          intro heq
+          have h1 := hc.1
+          rw [heq] at h1
+          generalize c.st.status = t at h1
+          cases t <;> exact absurd h1 (by decide)
+        exact .single (.wfEventUnreach req _ _ _ hA h hne hc.2)
+    · exact WfTrace.single (.wfEvent req _ _ _ hA h)
 
 theorem wfProcessTaskEvent_status (k ev) : Rel (statusPre A) (wfProcessTaskEvent k ev) := by
   constructor
